@@ -91,7 +91,7 @@ func c04Centered(row []uint64, q uint64) []int64 {
 	return out
 }
 
-func I64Vec(v []int64) string {
+func c04I64Vec(v []int64) string {
 	if len(v) == 0 {
 		return "-"
 	}
@@ -143,7 +143,7 @@ func (ps *c04PS) secretInts(sk *rlwe.SecretKey) []int64 {
 	return ps.smallInts(ps.canonQP(sk.Value, lq, lp, true, true), ps.moduliQP(lq, lp))
 }
 
-func polys(ps [][][]uint64) string {
+func c04Polys(ps [][][]uint64) string {
 	if len(ps) == 0 {
 		return "-"
 	}
@@ -154,22 +154,22 @@ func polys(ps [][][]uint64) string {
 	return strings.Join(parts, "/")
 }
 
-func ivecs(vs [][]int64) string {
+func c04IVecs(vs [][]int64) string {
 	if len(vs) == 0 {
 		return "-"
 	}
 	parts := make([]string, len(vs))
 	for i := range vs {
-		parts[i] = I64Vec(vs[i])
+		parts[i] = c04I64Vec(vs[i])
 	}
 	return strings.Join(parts, "/")
 }
 
 // ---------- twin of a KeyGenerator's randomness ----------
 
-// kgenTwin reproduces the PRNG and the three samplers of an rlwe.KeyGenerator (newEncryptor):
+// c04KgenTwin reproduces the PRNG and the three samplers of an rlwe.KeyGenerator (newEncryptor):
 // one keyed PRNG shared by xeSampler, xsSampler and the uniform QP sampler, created in that order.
-type kgenTwin struct {
+type c04KgenTwin struct {
 	ps   *c04PS
 	prng *sampling.KeyedPRNG
 	xe   ring.Sampler
@@ -177,8 +177,8 @@ type kgenTwin struct {
 	uni  ringqp.UniformSampler
 }
 
-// newKgenWithTwin creates a real key generator and its twin (same PRNG key).
-func newKgenWithTwin(ps *c04PS) (*rlwe.KeyGenerator, *kgenTwin) {
+// c04NewKgenWithTwin creates a real key generator and its twin (same PRNG key).
+func c04NewKgenWithTwin(ps *c04PS) (*rlwe.KeyGenerator, *c04KgenTwin) {
 	mark := RandMark()
 	kgen := rlwe.NewKeyGenerator(ps.params)
 	keys := RandKeysSince(mark)
@@ -199,13 +199,13 @@ func newKgenWithTwin(ps *c04PS) (*rlwe.KeyGenerator, *kgenTwin) {
 		panic(err)
 	}
 	uni := ringqp.NewUniformSampler(prng, *ps.params.RingQP())
-	return kgen, &kgenTwin{ps: ps, prng: prng, xe: xe, xs: xs, uni: uni}
+	return kgen, &c04KgenTwin{ps: ps, prng: prng, xe: xe, xs: xs, uni: uni}
 }
 
 // replayEvk performs the call sequence of KeyGenerator.genEvaluationKey for a key of the given shape and
 // returns the sampled a_{ij} (canonical QP rows), e_{ij} (signed integers) in generation order, and the
 // seed (compressed keys only).
-func (tw *kgenTwin) replayEvk(lq, lp int, shape []int, compressed bool) (A [][][]uint64, E [][]int64, seed []byte) {
+func (tw *c04KgenTwin) replayEvk(lq, lp int, shape []int, compressed bool) (A [][][]uint64, E [][]int64, seed []byte) {
 	ps := tw.ps
 	uni := tw.uni
 	if compressed {
@@ -235,7 +235,7 @@ func (tw *kgenTwin) replayEvk(lq, lp int, shape []int, compressed bool) (A [][][
 }
 
 // replayExpand regenerates the a stream the way EvaluationKey.Expand does.
-func (tw *kgenTwin) replayExpand(seed []byte, lq, lp int, shape []int) (A [][][]uint64) {
+func (tw *c04KgenTwin) replayExpand(seed []byte, lq, lp int, shape []int) (A [][][]uint64) {
 	ps := tw.ps
 	sp, err := sampling.NewKeyedPRNG(seed)
 	if err != nil {
@@ -255,7 +255,7 @@ func (tw *kgenTwin) replayExpand(seed []byte, lq, lp int, shape []int) (A [][][]
 
 // ---------- key material on the line ----------
 
-func evkShape(evk *rlwe.EvaluationKey) []int {
+func c04EvkShape(evk *rlwe.EvaluationKey) []int {
 	return evk.GadgetCiphertext.BaseTwoDecompositionVectorSize()
 }
 
@@ -426,8 +426,8 @@ func (ps *c04PS) noiseOf(ct *rlwe.Ciphertext, sk *rlwe.SecretKey, want []int64) 
 	return max
 }
 
-// applyAutInts computes sigma_g(m) on a signed integer vector (X -> X^g in Z[X]/(X^N+1)).
-func applyAutInts(m []int64, g uint64) []int64 {
+// c04ApplyAutInts computes sigma_g(m) on a signed integer vector (X -> X^g in Z[X]/(X^N+1)).
+func c04ApplyAutInts(m []int64, g uint64) []int64 {
 	n := uint64(len(m))
 	out := make([]int64, n)
 	for i := uint64(0); i < n; i++ {
@@ -441,7 +441,7 @@ func applyAutInts(m []int64, g uint64) []int64 {
 	return out
 }
 
-func prodBig(v []uint64) *big.Int {
+func c04ProdBig(v []uint64) *big.Int {
 	r := big.NewInt(1)
 	for _, x := range v {
 		r.Mul(r, new(big.Int).SetUint64(x))
@@ -465,7 +465,7 @@ func (ps *c04PS) ksNoiseBound(lvl, lp, w int, shape []int) *big.Int {
 			if ed > lvl+1 {
 				ed = lvl + 1
 			}
-			g := prodBig(ps.Q[st:ed])
+			g := c04ProdBig(ps.Q[st:ed])
 			g.Rsh(g, 1)
 			g.Add(g, big.NewInt(1))
 			sum.Add(sum, g)
@@ -486,7 +486,7 @@ func (ps *c04PS) ksNoiseBound(lvl, lp, w int, shape []int) *big.Int {
 	}
 	b := new(big.Int).Mul(sum, big.NewInt(N*Be))
 	if lp >= 0 {
-		b.Div(b, prodBig(ps.P[:lp+1]))
+		b.Div(b, c04ProdBig(ps.P[:lp+1]))
 		b.Add(b, big.NewInt((N+1)/2+2))
 	}
 	return b
